@@ -1422,3 +1422,7 @@ impl From<ffi::FunctionCode> for dnp3::app::FunctionCode {
         }
     }
 }
+
+#[cfg(kani)]
+#[path = "/verif/harness/ffi_master_functions.rs"]
+mod verif_harness;
